@@ -112,6 +112,106 @@ func ruleJSONParse(c *Ctx, r *R) {
 		}
 	}
 	r.check(okErr, "error-to-SyntaxError", site, "err != nil => panic(SyntaxError)", "a decoder error is not turned into a SyntaxError on the error branch")
+	// 15.12.2 step 4: with a callable reviver the result is always Walk(root, ""), whatever was parsed - a scalar root is
+	// revived too. The call of the reviving walker (the callee that takes the holder object and a name) does not hang on
+	// a test of the parsed value
+	for _, b := range fn.Blocks {
+		for _, ins := range b.Instrs {
+			call, ok := ins.(*ssa.Call)
+			if !ok {
+				continue
+			}
+			cl := call.Call.StaticCallee()
+			if cl == nil || cl.Pkg != fn.Pkg || cl.Blocks == nil || len(cl.Params) < 3 || cl.Signature.Recv() != nil {
+				continue
+			}
+			holder, name := false, false
+			for _, p := range cl.Params {
+				holder = holder || typeStr(p.Type()) == "*object"
+				name = name || typeStr(p.Type()) == "string"
+			}
+			if !holder || !name {
+				continue
+			}
+			// values computed from the decoded text: results of the calls that take the decoded root (or derive from them)
+			fromParsed := func(v ssa.Value) bool {
+				seen := map[ssa.Value]bool{}
+				var walk func(v ssa.Value, d int) bool
+				walk = func(v ssa.Value, d int) bool {
+					if d > 6 || seen[v] {
+						return false
+					}
+					seen[v] = true
+					switch x := v.(type) {
+					case *ssa.Call:
+						if c2 := x.Call.StaticCallee(); c2 != nil && c2.Pkg == fn.Pkg && c2 != cl {
+							for _, a := range x.Call.Args {
+								if u, ok := a.(*ssa.UnOp); ok {
+									if al, ok := u.X.(*ssa.Alloc); ok && len(unm.Call.Args) > 1 {
+										if mi, ok := unm.Call.Args[1].(*ssa.MakeInterface); ok && mi.X == ssa.Value(al) {
+											return true
+										}
+									}
+								}
+							}
+						}
+						for _, a := range x.Call.Args {
+							if walk(a, d+1) {
+								return true
+							}
+						}
+					case *ssa.Extract:
+						return walk(x.Tuple, d+1)
+					case *ssa.Phi:
+						for _, e := range x.Edges {
+							if walk(e, d+1) {
+								return true
+							}
+						}
+					case *ssa.BinOp:
+						return walk(x.X, d+1) || walk(x.Y, d+1)
+					case *ssa.UnOp:
+						return walk(x.X, d+1)
+					case *ssa.Field:
+						return walk(x.X, d+1)
+					case *ssa.FieldAddr:
+						return walk(x.X, d+1)
+					case *ssa.TypeAssert:
+						return walk(x.X, d+1)
+					case *ssa.MakeInterface:
+						return walk(x.X, d+1)
+					case *ssa.Alloc:
+						// a struct local kept in memory: what is stored into it
+						if x.Referrers() != nil {
+							for _, ref := range *x.Referrers() {
+								if st, ok := ref.(*ssa.Store); ok && st.Addr == ssa.Value(x) && walk(st.Val, d+1) {
+									return true
+								}
+							}
+						}
+					}
+					return false
+				}
+				return walk(v, 0)
+			}
+			bad := ""
+			for _, d := range fn.Blocks {
+				iff, ok := d.Instrs[len(d.Instrs)-1].(*ssa.If)
+				if !ok || d == b || !d.Dominates(b) {
+					continue
+				}
+				// only tests that decide whether the call is reached at all
+				if reaches(d.Succs[0], b, map[*ssa.BasicBlock]bool{d: true}) && reaches(d.Succs[1], b, map[*ssa.BasicBlock]bool{d: true}) {
+					continue
+				}
+				if fromParsed(iff.Cond) {
+					bad = c.Pos(instrPos(iff))
+				}
+			}
+			r.check(bad == "", "revive-whatever-was-parsed", c.Pos(instrPos(call)), "the reviving walk does not depend on a test of the parsed value",
+				"JSON.parse calls the reviving walk only when a test of the parsed value holds (at "+bad+"): ES5 15.12.2 step 4 applies the reviver to the root whatever it is - JSON.parse('1', function(k, v){ return v + 1 }) is 2, a scalar root is revived like any other")
+		}
+	}
 	// walker exhaustiveness
 	want := []string{"nil", "bool", "string", "float64", "[]interface{}", "map[string]interface{}"}
 	// the walker: the function that receives the decoded root (the variable whose address went to Unmarshal)
@@ -283,6 +383,32 @@ func ruleJSONStringify(c *Ctx, r *R) {
 						fmt.Sprintf("an object is pushed onto the cycle stack but a path reaches %s at %s before a deferred pop is registered: when toJSON, a getter or the replacer throws (or simply on some return path), the object stays on the stack and a later acyclic value is reported as circular", describeInstr(res.witness), c.Pos(instrPos(res.witness))))
 					// (ii) dominated by the membership loop with TypeError
 					r.check(cycleTestDominates(fn, st), "cycle-test:"+ssaFuncName(fn), site, "membership test over the stack (TypeError on a hit) dominates the push", "the push onto the cycle stack is not preceded by the membership loop that throws TypeError: a cyclic structure recurses until the Go stack overflows")
+				case "propertyList":
+					// ES5 15.12.3 step 4.b: an array replacer always yields a PropertyList, possibly empty (`JSON.stringify(o, [])`
+					// is `{}`). Where the serialiser tells "no replacer array" from "an array" by a nil test, the list stored
+					// for an array must not be nil: built with make or a literal, not grown by append from a nil slice
+					nilTested := false
+					for _, f2 := range fns {
+						for _, b2 := range f2.Blocks {
+							for _, i2 := range b2.Instrs {
+								if bo, ok := i2.(*ssa.BinOp); ok && (bo.Op == token.EQL || bo.Op == token.NEQ) {
+									for _, pair := range [][2]ssa.Value{{bo.X, bo.Y}, {bo.Y, bo.X}} {
+										if k, ok := pair[1].(*ssa.Const); ok && k.IsNil() {
+											if u, ok := pair[0].(*ssa.UnOp); ok {
+												if n3, f3 := fieldOfAddr(u.X); n3 != nil && f3.Name() == "propertyList" {
+													nilTested = true
+												}
+											}
+										}
+									}
+								}
+							}
+						}
+					}
+					if nilTested {
+						r.check(!mayBeNilSlice(st.Val, 0), "replacer-list-nonnil:"+ssaFuncName(fn), site, "the property list stored for an array replacer is made (never nil)",
+							"the property list of an array replacer can be nil here (it is grown with append from a nil slice), and the serialiser takes a nil list for `no replacer array`: with an empty array, or one whose elements are all skipped, every property is serialised - JSON.stringify({a:1}, []) must be `{}` (ES5 15.12.3 step 4.b, JO step 5)")
+					}
 				case "gap":
 					gaps++
 					ok, how := gapBounded(fn, st)
@@ -602,6 +728,47 @@ func isClampBuiltin(v ssa.Value, depth int) bool {
 			if k2, isK2 := constInt(inner.Call.Args[j]); isK2 && k2 == innerConst {
 				return true
 			}
+		}
+	}
+	return false
+}
+
+// mayBeNilSlice: the slice value can be the nil slice: a nil constant, an append to such, a merge that includes one.
+func mayBeNilSlice(v ssa.Value, depth int) bool {
+	if depth > 6 {
+		return false
+	}
+	switch x := v.(type) {
+	case *ssa.Const:
+		return x.IsNil()
+	case *ssa.Phi:
+		for _, e := range x.Edges {
+			if e != ssa.Value(x) && mayBeNilSlice(e, depth+1) {
+				return true
+			}
+		}
+	case *ssa.Call:
+		if bi, ok := x.Call.Value.(*ssa.Builtin); ok && bi.Name() == "append" && len(x.Call.Args) > 0 {
+			// append(nil) with nothing appended is nil; inside a loop the first operand is a merge with the initial value
+			return mayBeNilSlice(x.Call.Args[0], depth+1)
+		}
+	case *ssa.Slice:
+		return mayBeNilSlice(x.X, depth+1)
+	case *ssa.UnOp:
+		if al, ok := x.X.(*ssa.Alloc); ok && al.Referrers() != nil {
+			for _, ref := range *al.Referrers() {
+				if st, ok := ref.(*ssa.Store); ok && st.Addr == ssa.Value(al) && mayBeNilSlice(st.Val, depth+1) {
+					return true
+				}
+			}
+			// a declared slice variable that is never initialised starts as nil
+			stored := false
+			for _, ref := range *al.Referrers() {
+				if st, ok := ref.(*ssa.Store); ok && st.Addr == ssa.Value(al) {
+					stored = true
+				}
+			}
+			return !stored
 		}
 	}
 	return false
